@@ -143,6 +143,15 @@ def run_history(args):
             part["evaluations"] += 1
             if pk != sorted(model.samples):
                 bad({"class": "polling_reader_stale"}, "long-lived reader, fixed query read(%d,%d): %s, written %s" % (poll_lo, poll_hi, pk, sorted(model.samples)))
+            # the same long-lived reader: its bounds and its latest sample follow every write as well
+            try:
+                pb = tuple(int(x) for x in poll_reader.get_bounds())
+                pl = [int(k) for k in poll_reader.read_latest()]
+            except Exception as e:  # noqa: BLE001
+                pb, pl = ("raised", repr(e)), None
+            part["evaluations"] += 2
+            if pb != tuple(model.bounds()) or pl != [max(model.samples)]:
+                bad({"class": "polling_reader_stale", "query": "bounds_latest"}, "long-lived reader: get_bounds %r read_latest %r, written %s" % (pb, pl, sorted(model.samples)))
             # ---- after every write: bounds, latest, placement
             r = drf.DigitalMetadataReader(mdir)
             part["evaluations"] += 3
